@@ -97,6 +97,74 @@ def run_task(task):
         shutil.rmtree(tmp, ignore_errors=True)
 
 
+def inproc_task(task):
+    """In-process differential runs: the same seeded chain twice with different *ambient* random state (numpy's global
+    RandomState and Python's random module, which in a spawned worker are seeded from OS entropy) and cold caches both
+    times.  Cheap enough to visit rare branches (single data point, every point an outlier, ...)."""
+    import random as pyrandom
+    from vlib import gen
+    from vlib.harness import Partial, describe_exception
+    import phyclone.run as prun
+    from phyclone.tree import Tree
+    from phyclone.tree.utils import _convolve_two_children, compute_log_S
+    from phyclone.utils.dev import clear_proposal_dist_caches
+
+    part = Partial()
+    for c in range(task["count"]):
+        rng = np.random.default_rng([task["seed"], task["shard"], c, 1818])
+        n = int(rng.choice([1, 1, 2, 2, 3, 5]))
+        D = int(rng.integers(1, 3))
+        op = float(rng.choice([0.0, 0.3, 0.5]))
+        proposal = ["bootstrap", "semi-adapted", "fully-adapted"][c % 3]
+        sub = float(rng.choice([0.0, 0.5]))
+        iters = int(rng.choice([8, 20]))
+        data = gen.make_data(rng, n, D, 11, kind="smooth", outlier_prior=op)
+        case = {"seed": task["seed"], "shard": task["shard"], "case": c, "n": n, "outlier_prob": op, "proposal": proposal,
+                "subtree_update_prob": sub, "iters": iters}
+        fps = []
+        visited_no_clone = False
+        try:
+            for variant in (101, 202):
+                np.random.seed(variant)
+                pyrandom.seed(variant)
+                compute_log_S.cache_clear()
+                _convolve_two_children.cache_clear()
+                clear_proposal_dist_caches()
+                g = np.random.default_rng(4242 + c)
+                res = prun.run_phyclone_chain(1, True, 1.0, data, float("inf"), iters, 3, 1, 1, op, 1000, proposal, 0.5, g,
+                                              ["s%d" % i for i in range(D)], 1, 0, sub)
+                seq = []
+                for e in res["trace"]:
+                    t = Tree.from_dict(e["tree"])
+                    if len(t.nodes) == 0:
+                        visited_no_clone = True
+                    seq.append((int(e["iter"]), float(e["alpha"]).hex(), float(e["log_p_one"]).hex(),
+                                gen.key_str(gen.tree_key(t))))
+                fps.append(seq)
+        except Exception as e:
+            et, where, msg = describe_exception(e)
+            if where == "outside-repo":
+                import traceback
+                part.inconc("harness error: " + traceback.format_exc()[-700:])
+            else:
+                part.count("inprocess_runs_failed_owned_by_C19")
+            continue
+        part.count("evaluations")
+        part.count("inprocess_pairs")
+        if visited_no_clone:
+            part.count("inprocess_pairs_visiting_a_tree_without_clones")
+        part.see("inproc|%d|%s|%s|%s" % (n, op, proposal, sub))
+        if fps[0] != fps[1]:
+            first = next((i for i, (x, y) in enumerate(zip(fps[0], fps[1])) if x != y), None)
+            part.violation("seeded chain is not reproducible: its trace depends on ambient (unseeded) random state "
+                           "outside the generator it was given",
+                           dict(case, first_differing_entry=first, a=fps[0][first] if first is not None else None,
+                                b=fps[1][first] if first is not None else None))
+        if len(part.samples) < 1:
+            part.sample(dict(case, entries=len(fps[0])))
+    return None, part
+
+
 def environments(chains, quick):
     envs = [{"name": "reference", "hashseed": 0}]
     envs.append({"name": "hashseed 12345", "hashseed": 12345, "nice": True})
@@ -123,7 +191,9 @@ def run(ctx):
                 "(string mutation ids) x chains in {1,2,4}; each run under a reference environment and under perturbed "
                 "ones (hash seeds 1/12345/random, one core via taskset, nice, concurrent load, failpoint delays reversing "
                 "and rotating chain completion); per chain exact equality of (iter, alpha, log_p_one bits, tree key, "
-                "labels); distinct = (configuration, environment)")
+                "labels); plus in-process pairs of the same seeded chain under different ambient random state (numpy global "
+                "RandomState, random module) with cold caches, over small configurations that visit rare branches; "
+                "distinct = (configuration, environment)")
     ctx.assumptions = ["`time` entries are excluded", "same machine, same library versions for all runs of a comparison"]
     cfgs = [
         {"id": 0, "proposal": "semi-adapted", "outlier_prob": 0.1, "clustered": False, "chains": 2, "n_mut": 5, "iters": 6,
@@ -188,5 +258,9 @@ def run(ctx):
                     break
         ctx.sample({"cfg": cfg, "environments": [e["name"] for e, _ in runs],
                     "completion_orders": sorted(list(o) for o in orders), "entries_per_chain": len(next(iter(ref["fp"].values())))})
+    itasks = [{"seed": ctx.seed, "shard": i, "count": 12 if quick else 150} for i in range(16)]
+    ctx.map("checks.c18", "inproc_task", itasks, timeout=2400)
     if ctx.counters.get("comparisons", 0) < 6:
         ctx.inconc("too few run comparisons")
+    if ctx.counters.get("inprocess_pairs_visiting_a_tree_without_clones", 0) < 3:
+        ctx.inconc("in-process differential runs never visited a tree without clones")
